@@ -421,46 +421,6 @@ int main(int argc, char **argv) {
     if (!r.complete) rep.caps.push_back("svc: deadline reached");
   }
 
-  // ================= family: dfs
-  phase(ctx, "dfs");
-  int depth = ctx.thorough() ? 7 : 5;
-  if (getenv("HEXMC_C02_DEPTH")) depth = atoi(getenv("HEXMC_C02_DEPTH"));
-  int completedDepth = 0;
-  for (int d = 2; d <= depth; d++) {
-    if (ctx.expired()) { rep.caps.push_back("dfs: deadline before depth " + std::to_string(d)); break; }
-    // chunks = first byte choice x second byte choice
-    uint64_t nch = (uint64_t)NSIGMA * NSIGMA;
-    auto body = [&](uint64_t b, uint64_t e, const std::set<uint64_t> &skip, Stats &st, volatile uint64_t *cur) {
-      std::string dir = ctx.scratch + "/dfs" + std::to_string(b); mkdir(dir.c_str(), 0755); if (chdir(dir.c_str())) exit(3);
-      {
-        Pair P; P.init(false);
-        for (uint64_t i = b; i < e; i++) {
-          *cur = i; if (skip.count(i)) continue;
-          Dfs D(P, st, d);
-          // force the first two chosen bytes
-          uint8_t b0 = SIGMA[i / NSIGMA], b1 = SIGMA[i % NSIGMA];
-          P.setRegs(0, 0, 0, 0); P.env = Env(); P.sim.setInput(""); P.sim.ob.data.clear();
-          P.poke(0, b0 | (b1 << 8)); D.chosen[0] = D.chosen[1] = 1; D.trace = {b0, b1};
-          D.go(0);
-          P.poke(0, 0);
-          st.add("dfs_states", D.states); st.add("dfs_transitions", D.transitions); st.add("dfs_leaves", D.leaves); st.maxv("dfs_depth", D.maxd);
-        }
-        P.sim.destroy();
-        for (int n = 0; n < 8; n++) unlink(("simout" + std::to_string(n)).c_str());
-      }
-      if (chdir(ctx.scratch.c_str())) exit(3);
-      rmdir(dir.c_str());
-    };
-    Ctx c2 = ctx;
-    RunResult r = run_chunks(c2, "dfs" + std::to_string(d), nch, nch, body, [&](uint64_t i) { return Obj().kv("family", "dfs").kv("first_bytes_hex", hexs(std::string{(char)SIGMA[i / NSIGMA], (char)SIGMA[i % NSIGMA]})).str(); }, 300.0);
-    if (r.complete) {
-      completedDepth = d;
-      // keep only the deepest completed depth's counters (shallower ones are subsumed)
-      for (auto k : {"dfs_states", "dfs_transitions", "dfs_leaves", "dfs_steps", "dfs_pruned_revisit", "dfs_skipped_out_of_range", "dfs_skipped_undefined", "dfs_left_window"}) rep.st.c.erase(k);
-      rep.st.merge(r.stats);
-    } else { rep.caps.push_back("dfs: depth " + std::to_string(d) + " not completed before the deadline"); for (auto &v : r.stats.viols) rep.st.viols.insert(v); break; }
-  }
-
   // ================= family: whole (uninterrupted runs): every byte sequence of length <= L at address 0 is executed by ONE call of
   // Processor::run() for exactly as many instructions as the reference finds defined, and the final state is compared.  This is the
   // family that sees state a single call keeps across instructions (anything the step-by-step families reset by re-entering run()).
@@ -585,6 +545,46 @@ int main(int argc, char **argv) {
     }
     unlink((ctx.scratch + "/l.bin").c_str());
     rep.st.merge(st);
+  }
+
+  // ================= family: dfs (last: iterative deepening uses whatever budget is left)
+  phase(ctx, "dfs");
+  int depth = ctx.thorough() ? 7 : 5;
+  if (getenv("HEXMC_C02_DEPTH")) depth = atoi(getenv("HEXMC_C02_DEPTH"));
+  int completedDepth = 0;
+  for (int d = 2; d <= depth; d++) {
+    if (ctx.expired()) { rep.caps.push_back("dfs: deadline before depth " + std::to_string(d)); break; }
+    // chunks = first byte choice x second byte choice
+    uint64_t nch = (uint64_t)NSIGMA * NSIGMA;
+    auto body = [&](uint64_t b, uint64_t e, const std::set<uint64_t> &skip, Stats &st, volatile uint64_t *cur) {
+      std::string dir = ctx.scratch + "/dfs" + std::to_string(b); mkdir(dir.c_str(), 0755); if (chdir(dir.c_str())) exit(3);
+      {
+        Pair P; P.init(false);
+        for (uint64_t i = b; i < e; i++) {
+          *cur = i; if (skip.count(i)) continue;
+          Dfs D(P, st, d);
+          // force the first two chosen bytes
+          uint8_t b0 = SIGMA[i / NSIGMA], b1 = SIGMA[i % NSIGMA];
+          P.setRegs(0, 0, 0, 0); P.env = Env(); P.sim.setInput(""); P.sim.ob.data.clear();
+          P.poke(0, b0 | (b1 << 8)); D.chosen[0] = D.chosen[1] = 1; D.trace = {b0, b1};
+          D.go(0);
+          P.poke(0, 0);
+          st.add("dfs_states", D.states); st.add("dfs_transitions", D.transitions); st.add("dfs_leaves", D.leaves); st.maxv("dfs_depth", D.maxd);
+        }
+        P.sim.destroy();
+        for (int n = 0; n < 8; n++) unlink(("simout" + std::to_string(n)).c_str());
+      }
+      if (chdir(ctx.scratch.c_str())) exit(3);
+      rmdir(dir.c_str());
+    };
+    Ctx c2 = ctx;
+    RunResult r = run_chunks(c2, "dfs" + std::to_string(d), nch, nch, body, [&](uint64_t i) { return Obj().kv("family", "dfs").kv("first_bytes_hex", hexs(std::string{(char)SIGMA[i / NSIGMA], (char)SIGMA[i % NSIGMA]})).str(); }, 300.0);
+    if (r.complete) {
+      completedDepth = d;
+      // keep only the deepest completed depth's counters (shallower ones are subsumed)
+      for (auto k : {"dfs_states", "dfs_transitions", "dfs_leaves", "dfs_steps", "dfs_pruned_revisit", "dfs_skipped_out_of_range", "dfs_skipped_undefined", "dfs_left_window"}) rep.st.c.erase(k);
+      rep.st.merge(r.stats);
+    } else { rep.caps.push_back("dfs: depth " + std::to_string(d) + " not completed before the deadline"); for (auto &v : r.stats.viols) rep.st.viols.insert(v); break; }
   }
 
   // ---- evidence
